@@ -42,7 +42,7 @@ CHECKS = {
          "print/println/eprint/eprintln are run through the real binary (text on the right stream, returned byte length); display of chars/bytes/containers is a don't-care zone", "DESIGN.md §4 C12, §8.5"),
  "C13": ("p2v-inproc", "proptest generator placing one failing single-line construct at a known line after random filler (functions, filters, multi-line literals, CRLF); oracle: reported line == constructed line",
          "Programs with 0..14 filler constructs followed by exactly one failing construct (66 kinds: division by zero, bad index/key, operand kinds, unary, non-function call, arity, every pure builtin, property access) at top level, in functions, closures, loops or nested expressions; the runtime error must carry the line the construct was written on.",
-         "only single-line constructs are generated (the property's proviso)", "DESIGN.md §4 C13"),
+         "only single-line constructs are generated (the property's proviso); the [line N] prefix printed by the real binary is checked for script files and -c texts, also with leading blank lines", "DESIGN.md §4 C13, §8.5"),
  "C14": ("p2v-inproc", "exhaustive encode/decode round trip over every opcode and operand value; decoder walk of generated programs' bytecode; programs constructed at, below and above each encoding limit",
          "All 17.4 million (opcode, operands) combinations round-trip through make/read_operands; generated programs' bytecode is walked with the decoder (valid opcodes, jump targets on instruction boundaries, constant indices in range); limit programs for constants, jump targets (8 constructs), locals, call arguments, captured variables and REPL-accumulated constants must be rejected above the limit and behave correctly at/below it.",
          "global-index and array/map-literal limit programs take minutes to compile and run in the thorough tier only", "DESIGN.md §4 C14"),
@@ -123,7 +123,7 @@ def main():
         "engines": [
             {"name": "p2v-inproc", "path": "harness/", "serves_properties": sorted(k for k, v in CHECKS.items() if "inproc" in v[0]),
              "kind_free_text": "Rust harness crate that compiles the real p2sh modules in by path and drives them with proptest (choice-sequence generators) and bounded-exhaustive enumerators, 16 worker processes"},
-            {"name": "p2v-e2e", "path": "harness/", "serves_properties": sorted([k for k, v in CHECKS.items() if "e2e" in v[0]] + [k for k in ("C06", "C08", "C12", "C15", "C21", "C22") if k in CHECKS]),
+            {"name": "p2v-e2e", "path": "harness/", "serves_properties": sorted([k for k, v in CHECKS.items() if "e2e" in v[0]] + [k for k in ("C06", "C08", "C12", "C13", "C15", "C21", "C22") if k in CHECKS]),
              "kind_free_text": "same harness driving the real p2sh binary (dev profile, hooks on) as a subprocess with generated scripts, argv, stdin streams"},
         ],
         "checks": checks,
